@@ -12,8 +12,8 @@ import (
 	"path/filepath"
 	"runtime"
 	"strconv"
-	"syscall"
 	"sync"
+	"syscall"
 	"testing"
 	"time"
 
